@@ -396,8 +396,14 @@ class Parser(ExprParser):
         self.enter("parameter_list")
         params = []
         self.next()  # consume LPAREN peeked at in caller
+        names = set()
         while self.token.typ != "RPAREN":
             node = self.declaration()
+            name = node.get_name(use_attr=False)
+            if name is not None:
+                if name in names:
+                    self.error_msg("Duplicate parameter name '{}'", name)
+                names.add(name)
             params.append(node)
             if self.have("COMMA"):
                 if self.have("VARARG"):
